@@ -29,6 +29,17 @@
 //!                dns/sweep.rs (C19/foreign-record/not-ignored/<position>); with no foreign record
 //!                at all, and for the good responses used as controls (large, after an idle gap,
 //!                after ARP / back-pressure is lifted), C19/good-response/not-completed/<kind>.
+//!  API calls   - *-update-servers configurations: the application calls dns::Socket::update_servers
+//!                (empty list / first server only / same list / a list with one different server) up
+//!                to twice at any point of a pending query, then polls. Never a panic, the query still
+//!                terminates within the bound (failure is fine); a response's source counts as a
+//!                configured server if it is in the CURRENT list or was in the list in effect when a
+//!                datagram of that query was sent (lenient; smoltcp checks the current list). The
+//!                per-server timing clauses are not applied after an update (the server index stays
+//!                while the list under it changes).
+//!                On the unimpaired link a query that is pending but has no datagram on the wire after
+//!                the poll that follows start_query is a verdict
+//!                (termination/query-not-transmitted-by-the-poll-after-start_query).
 //!  late polls  - "polled no later than poll_at" is not a premise of the timing clauses as far as
 //!                lateness only delays things: in the *-late-poll configurations the explorer lets one
 //!                (thorough: two) polls per history come 1 s or 3 s AFTER poll_at. A late poll may
@@ -1820,6 +1831,7 @@ pub fn run(tier: Tier) -> i32 {
     watch::start_monitor(tier.name());
     let mut rep = Report::new("C19", tier);
     rep.assumptions.push("IPv4 transport for responses (mDNS queries also leave over IPv6 and are observed); one dns::Socket; queries started at t=0. Links: Medium::Ip where every frame gets out; Medium::Ip with device back-pressure (tx_budget 0, lifted/re-imposed by the explorer; while smoltcp asks to be polled 'now' one poll per simulated second); Medium::Ethernet with servers on-link or behind a gateway whose ARP is never answered / answered by the explorer not before 3 s / at any time. Timing clauses only on the unimpaired link; matching and termination clauses everywhere".into());
+    rep.assumptions.push("update_servers: in the *-update-servers configurations up to two calls per history (empty / first server / same / one different server), each followed by a poll; source matching is lenient (current list or list in effect at a transmission of the query); timing clauses are dropped after an update".into());
     rep.assumptions.push("late polls: in the *-late-poll configurations one (thorough: two) polls per history come 1 s or 3 s after poll_at; every other poll is exactly at poll_at".into());
     rep.assumptions.push("time advances only to Interface::poll_at (statement: 'polled according to poll_at'); bound = servers x (10 s + 10 s max back-off) + 1 s from dns.rs constants".into());
     rep.assumptions.push("'records for other names are ignored' is judged as an obligation: a matching response carrying the wanted records must complete the query with exactly those addresses (coverage.answer_section_sweep); good responses that are not accepted (coverage.positive_controls) are verdicts too, not machinery errors".into());
